@@ -207,14 +207,9 @@ func (p *Prog) PkgFuncs(rel string) []*ssa.Function {
 	return out
 }
 
-func (p *Prog) hidden(f *ssa.Function) bool {
-	for g := f; g != nil; g = g.Parent() {
-		if p.Hidden[g] {
-			return true
-		}
-	}
-	return false
-}
+// hidden: a helper inlined at every use is dead in the variant. Its closures stay
+// visible: the inlined copies of its MakeClosure instructions still create them.
+func (p *Prog) hidden(f *ssa.Function) bool { return p.Hidden[f] }
 
 // SSAPkgFuncs lists the source functions of one SSA package.
 func SSAPkgFuncs(prog *ssa.Program, sp *ssa.Package) []*ssa.Function {
